@@ -229,9 +229,22 @@ func (v *PacketDslVisitorImpl) VisitFieldDefinitionWithAttribute(ctx *gen.FieldD
 			if padChar == "'\\x00'" {
 				padChar = "'\x00'"
 			}
-			f.Attr.(*model.FixedStringFieldAttribute).Padding = &model.Padding{
-				PadChar: padChar,
-				PadLeft: strings.Contains(fieldAttr.PaddingAttribute().PADDING_ATTR().GetText(), "left"),
+			fixed, ok := f.Attr.(*model.FixedStringFieldAttribute)
+			if !ok {
+				v.BinModel.AddSyntaxError(&model.SyntaxError{
+					Line:   fieldAttr.GetStart().GetLine(),
+					Column: fieldAttr.GetStart().GetColumn(),
+					Msg:    "Padding attribute is only allowed on a fixed-length string field, not on " + f.Name,
+				})
+				continue
+			}
+			// the attribute object may be shared with a MetaData entry (and every other field typed by it): pad a copy
+			f.Attr = &model.FixedStringFieldAttribute{
+				Length: fixed.Length,
+				Padding: &model.Padding{
+					PadChar: padChar,
+					PadLeft: strings.Contains(fieldAttr.PaddingAttribute().PADDING_ATTR().GetText(), "left"),
+				},
 			}
 		case fieldAttr.TagAttribute() != nil:
 			tagValue := fieldAttr.TagAttribute().DIGITS().GetText()
